@@ -442,6 +442,7 @@ var InvalidClasses = []struct {
 	{"kind/interface", []string{"A interface{} `frugal:\"1,default,i32\"`"}},
 	{"kind/complex", []string{"A complex128 `frugal:\"1,default,double\"`"}},
 	{"kind/uintptr", []string{"A uintptr `frugal:\"1,default,i64\"`"}},
+	{"kind/unsafe-pointer", []string{"A unsafe.Pointer `frugal:\"1,default,i64\"`"}},
 	{"kind/list-elem-uint", []string{"A []uint32 `frugal:\"1,default,list<i32>\"`"}},
 	{"kind/map-value-float32", []string{"A map[int32]float32 `frugal:\"1,default,map<i32:double>\"`"}},
 	{"slice/no-annotation", []string{"A []int32 `frugal:\"1,default\"`"}},
@@ -454,6 +455,10 @@ var InvalidClasses = []struct {
 	{"anno/map-value-mismatch", []string{"A map[string]int32 `frugal:\"1,default,map<string:string>\"`"}},
 	{"anno/list-elem-mismatch", []string{"A []int32 `frugal:\"1,default,list<i64>\"`"}},
 	{"anno/struct-name-mismatch", []string{"A *%B `frugal:\"1,default,NotTheName\"`"}},
+	{"anno/enum-name-mismatch", []string{"A EnumA `frugal:\"1,default,EnumB\"`"}},
+	{"anno/enum-name-on-int64", []string{"A int64 `frugal:\"1,default,EnumA\"`"}},
+	{"anno/map-value-struct-name-mismatch", []string{"A map[string]*%B `frugal:\"1,default,map<string:SomethingElse>\"`"}},
+	{"anno/set-elem-mismatch", []string{"A []string `frugal:\"1,default,set<i32>\"`"}},
 	{"anno/list-on-map", []string{"A map[int32]int32 `frugal:\"1,default,list<i32>\"`"}},
 	{"anno/map-on-list", []string{"A []int32 `frugal:\"1,default,map<i32:i32>\"`"}},
 	{"anno/scalar-on-struct", []string{"A *%B `frugal:\"1,default,i32\"`"}},
@@ -495,6 +500,8 @@ var InvalidClasses = []struct {
 	{"id/negative", []string{"A int32 `frugal:\"-1,default,i32\"`"}},
 	{"id/out-of-range", []string{"A int32 `frugal:\"65536,default,i32\"`"}},
 	{"id/huge", []string{"A int32 `frugal:\"4294967297,default,i32\"`"}},
+	{"id/plus-sign", []string{"A int32 `frugal:\"+1,default,i32\"`"}},
+	{"id/float", []string{"A int32 `frugal:\"1.0,default,i32\"`"}},
 	{"id/hex", []string{"A int32 `frugal:\"0x10,default,i32\"`"}},
 	{"req/unknown", []string{"A int32 `frugal:\"1,mandatory,i32\"`"}},
 	{"req/capitalised", []string{"A int32 `frugal:\"1,Required,i32\"`"}},
